@@ -14,6 +14,8 @@ agree = Base.agree; nontrivial = Base.nontrivial; signature = Base.signature; ex
 
 def classify(op, m):
     o = op.split(' ')[0]
+    if o.startswith('sxg.'):
+        return o + ':' + op.split(' ')[1] + ':' + m.split(' ')[0]
     if o.startswith('mice.enc'):
         return o + ':' + op.split(' ')[1] + ':' + m.split(' ')[0]
     if o.startswith('mice'):
@@ -82,3 +84,35 @@ def generate0(tier, rng):
         if m == 2 and s: del s[rng.randrange(len(s))]
         if m == 3: s += rng.choice([b'=', b'==', b'A', b'\n', b'=\n=', b'A='])
         yield f'b64.dec {url} {pad} {hexs(bytes(s))}'
+
+
+def run(ctx):
+    """the encoder / decoder ops of generate(), then the two library call sites above the encoding: Exchange.MiEncodePayload (record
+    size and layout as requested, for payloads shorter than, equal to and longer than one record) and the verifier's decode of what it
+    produced (incl. the empty payload of each draft)"""
+    import sxglib
+    rng = ctx.rng
+    ctx.both(list(generate(ctx.tier, rng)))
+    ops = []
+    for ver in sxglib.VERS:
+        for rs in (1, 16, 100, 4096, 16384):
+            for plen in sorted(set([0, 1, 41, max(rs - 1, 0), rs, rs + 1, 2 * rs, 3 * rs + 5])):
+                if plen > 20000: continue
+                e = sxglib.ex(ver, b'https://example.com/', b'GET', [], 200, [(b'Content-Type', [b'text/html'])], b'', rbytes(rng, plen))
+                ops.append(f'sxg.mi {sxglib.exs(e)} {rs}')
+    ctx.both(ops)
+    w = sxglib.setup(ctx)
+    k = [k for k in w.keys if k['curve'] == 'p256' and k['hosts'].startswith(b'example.com')][0]
+    cu, vu, d0 = b'https://example.com/cert.msg', b'https://example.com/v', 1517418800
+    sops = []
+    for ver in sxglib.VERS:
+        for rs, plen in ((16, 0), (16, 1), (16, 16), (16, 17), (16, 40), (4096, 0), (4096, 10), (1, 3)):
+            e = sxglib.ex(ver, b'https://example.com/', b'GET', [], 200, [(b'Content-Type', [b'text/html'])], b'', rbytes(rng, plen))
+            sops.append(f'sxg.sign {sxglib.exs(e)} {rs} {k["cert"]} {k["key"]} {hexs(cu)} {hexs(vu)} {d0} {d0 + 3600}')
+    items = []
+    for r in ctx.go(sops):
+        se = sxglib.parse_ex(r) if r else None
+        if se: items.append((se, (d0 + 10, 0), {cu: k['chain']}))
+    if len(items) < len(sops):
+        ctx.infra.append(f'{len(sops) - len(items)} exchanges could not be signed')
+    sxglib.verify_stage(ctx, items)
